@@ -272,6 +272,14 @@ impl<E: ElemT> TableWorld<E> {
             let diff = a.iter().zip(m.iter()).find(|(x, y)| x != y);
             vio!(self, format!("contents/{}", self.ctx.op_kind), "stored elements differ from the model; first difference (actual, model) = {:?}", diff);
         }
+        if !E::HAS_SERIAL && E::HAS_DROP && !self.ctx.drop_fault_fired {
+            // elements without a serial are tracked as a multiset: everything live must be stored in a slot
+            let stored: i64 = self.slots.iter().map(|s| s.model.len() as i64).sum();
+            let live = sim().ms_live_total();
+            if live != stored + self.ctx.leaked_ms {
+                vio!(self, if live > stored + self.ctx.leaked_ms { "ledger/leak" } else { "ledger/double-drop" }, "{live} droppable elements are live, the collections hold {stored} (+{} deliberately leaked)", self.ctx.leaked_ms);
+            }
+        }
         self.ctx.transcript_add(si, len, a.iter().flat_map(|e| [e.id as u64, e.payload as u64, e.hash]));
         if len as u32 <= self.ctx.cfg.sweep_below {
             self.sweep(si)?;
@@ -1502,6 +1510,7 @@ impl<E: ElemT> TableWorld<E> {
         fc.fresh_ok = true;
         fc.arg_ids = self.slots[si].model.iter().map(|e| e.id).collect();
         let src_model = self.slots[si].model.clone();
+        let created0 = sim().created;
         let out = if op.k == Kd::CloneTo {
             let old = self.slots[ti].t.replace(HashTable::new_in(SimAlloc)).unwrap();
             drop(old);
@@ -1544,6 +1553,10 @@ impl<E: ElemT> TableWorld<E> {
             }
             if E::HAS_SERIAL && act.iter().any(|(e, _)| src_model.iter().any(|s| s.serial == e.serial)) {
                 vio!(self, format!("clone/{:?}", op.k), "the clone shares an element instance with the source");
+            }
+            let made = sim().created - created0;
+            if E::HAS_DROP && made != src_model.len() as u64 {
+                vio!(self, format!("clone/{:?}", op.k), "cloning {} elements created {made} element instances", src_model.len());
             }
             self.dropped_check(&old_model, "clone_from (old target contents)")?;
         }
